@@ -842,7 +842,91 @@ def g_mthrc(rng):
     return g_mth(rng, rc=True)
 
 
+# ---------------------------------------------------------------- BDD encodings
+def g_bddincl(rng):
+    A, B, _ = rand_pair(rng)
+    return f"bddincl {A.tok()} {B.tok()}"
+
+
+def g_bddinclall(rng):
+    A, B, _ = rand_pair(rng, nmax=3)
+    return f"bddinclall {A.tok()} {B.tok()}"
+
+
+def g_bddtd(rng):
+    A = rand_ta(rng, nmax=5, dials=dict(dead_child=0.3, final_norule=0.2))
+    return f"bddtd {A.tok()}"
+
+
+def g_bddh(rng):
+    enc = rng.choice(["bu", "td"])
+    alpha = pick_alpha(rng)
+    steps = []
+    live = []
+    fam = {}             # entry -> table family (automata that may share one transition table)
+    fblocks = {}         # family -> number blocks that occur in the table or in final sets of its members
+    n = 0
+    nfam = 0
+
+    def new(family=None, bl=()):
+        nonlocal n, nfam
+        if family is None:
+            family = nfam
+            nfam += 1
+            fblocks[family] = set()
+        fam[n] = family
+        fblocks[family] |= set(bl)
+        live.append(n)
+        n += 1
+
+    def block(q):
+        return q // 100 if q >= 100 else "f"
+
+    for _ in range(rng.randint(2, 3)):
+        A = rand_ta(rng, alpha, nmax=4)
+        if rng.random() < 0.3 and live:
+            A = mutate_ta(rng, A, alpha)
+        steps.append("def!" + A.tok())
+        new(None, {len(steps)})
+    for _ in range(rng.randint(2, 7)):
+        c = rng.random()
+        i = rng.choice(live)
+        j = rng.choice(live)
+        if c < 0.12:
+            steps.append(f"copy!{i}"); new(fam[i])
+        elif c < 0.18:
+            steps.append(f"assign!{i}!{j}"); fam[i] = fam[j]
+        elif c < 0.24 and len(live) > 2:
+            steps.append(f"kill!{i}"); live.remove(i)
+        elif c < 0.34 and "f" not in fblocks[fam[i]]:
+            steps.append(f"loadinto!{i}!" + rand_ta(rng, alpha, nmax=3).tok()); fblocks[fam[i]].add("f")
+        elif c < 0.40:
+            q = rng.choice([100, 101, 200, 201, 300, 0, 1])
+            steps.append(f"final!{i}!{q}"); fblocks[fam[i]].add(block(q))
+        elif c < 0.55:
+            steps.append(f"union!{i}!{j}")
+            if fam[i] == fam[j]:
+                new(fam[i])              # shared-table branch: a view of the same table
+            else:
+                new(None, {"f"})
+        elif c < 0.68:
+            cands = [(a, b) for a in live for b in live if fam[a] != fam[b] and not (fblocks[fam[a]] & fblocks[fam[b]])]
+            if cands:
+                a, b = rng.choice(cands)
+                steps.append(f"uniondisj!{a}!{b}")
+                # the result starts as a copy of the left operand and writes the right operand's states into that table
+                new(fam[a], fblocks[fam[b]])
+        elif c < 0.82:
+            steps.append(f"isect!{i}!{j}"); new(None, {"f"})
+        elif c < 0.91:
+            steps.append(f"unreach!{i}"); new(fam[i])
+        else:
+            steps.append(f"useless!{i}"); new(fam[i])
+    return f"bddh {enc} " + " ".join(steps)
+
+
 GENERATORS = {
+    "bddincl": g_bddincl, "bddinclall": g_bddinclall, "bddtd": g_bddtd, "bddh": g_bddh,
     "mth": g_mth, "mthrc": g_mthrc,
     "tah_store": g_tah_store, "tah_hist": g_tah_hist,
     "lts": g_lts,
